@@ -384,6 +384,25 @@ func c14BuildSystematic() {
 		add("sys-ascii-k-vertices", pad(strings.Repeat("vertex 0 0 0\n", k)))
 		add("sys-ascii-k-vertices", pad("solid a\nfacet normal 0 0 1\nouter loop\n"+strings.Repeat("vertex 1 2 3\n", k)+"endloop\nendfacet\nendsolid a\n"))
 	}
+	// big ASCII files (tens of thousands of lines: readers that work in blocks / pipelines) with one malformed number early,
+	// in the middle or at the end, plus a well-formed control
+	for _, badAt := range []int{-1, 0, 1000, 3000, 4999} {
+		var sb strings.Builder
+		sb.WriteString("solid big\n")
+		for f := 0; f < 5000; f++ {
+			sb.WriteString("facet normal 0 0 1\nouter loop\n")
+			for v := 0; v < 3; v++ {
+				if f == badAt && v == 1 {
+					sb.WriteString("vertex 1.0 2.0x 3.0\n")
+				} else {
+					fmt.Fprintf(&sb, "vertex %d %d %d\n", f, v, f%7)
+				}
+			}
+			sb.WriteString("endloop\nendfacet\n")
+		}
+		sb.WriteString("endsolid big\n")
+		add("sys-ascii-big-bad-number", []byte(sb.String()))
+	}
 	// files shorter than the header
 	for n := 0; n < 84; n++ {
 		z := make([]byte, n)
